@@ -65,7 +65,7 @@ pub fn run_scheduled(m: &GraphModel, cfg: &Config, timeout: Option<&Timeout>, sc
     let obs = match &cfg.strategy {
         Strategy::Bfs => finish_run_with(b.spawn_bfs(), false, &rec, &mut between),
         Strategy::Dfs | Strategy::DfsSym => finish_run_with(b.spawn_dfs(), false, &rec, &mut between),
-        Strategy::OnDemand => finish_run_with(b.spawn_on_demand(), true, &rec, &mut between),
+        Strategy::OnDemand | Strategy::OnDemandProbe(_) => finish_run_with(b.spawn_on_demand(), true, &rec, &mut between),
         Strategy::SimUniform(seed) | Strategy::SimUniformSym(seed) => finish_run_with(b.spawn_simulation(*seed, UniformChooser), false, &rec, &mut between),
         Strategy::SimScript(seed, script) => finish_run_with(b.spawn_simulation(*seed, ScriptChooser(script.clone())), false, &rec, &mut between),
     };
